@@ -120,8 +120,8 @@ func (l *Lexer) scanToken() error {
 		}
 	case '/':
 		if l.match('/') {
-			// Line comment
-			for l.peek() != '\n' && !l.isAtEnd() {
+			// Line comment: runs up to (not including) the next line break
+			for !isLineBreak(l.peek()) && !l.isAtEnd() {
 				l.advance()
 			}
 		} else if l.match('*') {
@@ -185,8 +185,8 @@ func (l *Lexer) scanToken() error {
 			l.addToken(TokenPipe)
 		}
 
-	// Whitespace
-	case ' ', '\r', '\t':
+	// Whitespace (WGSL blankspace: space, tab, VT, FF, CR, NEL, LRM, RLM, LS, PS)
+	case ' ', '\r', '\t', '\v', '\f', 0x85, 0x200E, 0x200F, 0x2028, 0x2029:
 		// Ignore whitespace
 	case '\n':
 		l.line++
@@ -462,6 +462,16 @@ func (l *Lexer) match(expected rune) bool {
 
 func (l *Lexer) isAtEnd() bool {
 	return l.pos >= len(l.source)
+}
+
+// isLineBreak reports whether r is one of the WGSL line break code points
+// (LF, VT, FF, CR, NEL, LS, PS).
+func isLineBreak(r rune) bool {
+	switch r {
+	case '\n', '\v', '\f', '\r', 0x85, 0x2028, 0x2029:
+		return true
+	}
+	return false
 }
 
 func isDigit(r rune) bool {
